@@ -175,18 +175,71 @@ def fmt_num(b, typ):
         if typ != "Fraction" else "Fraction({!r})".format(v)
 
 
-def gen_case(rng, malformed=False, long=False):
+SEEDS = [12345, 0, 1, 20240, 4242]
+
+
+def gen_case(rng, malformed=False, long=False, scenario=None):
+    """`scenario` (None = drawn): "plain" = every quantity exists from the start (as before);
+    "late" = some quantities are created in the middle of the history; "reseed" = as "late", and the
+    global random generators (Python's `random`, numpy's) are re-seeded WITH THE SEED THEY HAD WHEN
+    THE FIRST BATCH WAS MADE right before the second batch is made (what a script does for a
+    reproducible shuffle / bootstrap, what a test framework does per case): a record is keyed by the
+    identity of the two objects, and identity must not depend on the state of any random generator.
+    A late quantity is often the TWIN of an earlier one (same description, hence equal central value
+    and uncertainty): a distinct object is a distinct quantity however equal its numbers are."""
     qs = gen_quantities(rng, malformed)
+    if scenario is None:
+        r = rng.random()
+        scenario = "reseed" if r < 0.22 else "late" if r < 0.34 else "plain"
+    nq0 = len(qs)
+    # equal central values among the single measurements (model: identity is the creation index)
+    for i, x in enumerate(qs):
+        if x["kind"] == "single" and rng.random() < 0.3:
+            x["val"] = bits(5.0)
+    late = []
+    if scenario in ("late", "reseed"):
+        for _ in range(rng.choice([1, 2, 2, 3, nq0])):
+            src = rng.randrange(nq0)
+            if qs[src]["kind"] in MEASURED and rng.random() < 0.6:
+                twin = dict(qs[src])
+                if twin["kind"] == "single":
+                    twin.setdefault("val", bits(5.0 + src))
+                twin["twin_of"] = src
+                qs.append(twin)
+            else:
+                qs.append(gen_quantities(rng, malformed)[0])
+            late.append(len(qs) - 1)
     std = [cur_std(x) for x in qs]
     nq = len(qs)
-    meas = [i for i, x in enumerate(qs) if x["kind"] in MEASURED]
+    alive = [i for i in range(nq) if i not in late]
+    meas = [i for i in alive if qs[i]["kind"] in MEASURED]
     ops = []
-    for _ in range(rng.randint(60, 150) if long else
-                   rng.choice([5, 8, 12, 20, 30, 60]) if rng.random() < 0.7 else rng.randint(5, 60)):
+    seed0 = rng.choice(SEEDS)
+    n_ops = (rng.randint(60, 150) if long else
+             rng.choice([5, 8, 12, 20, 30, 60]) if rng.random() < 0.7 else rng.randint(5, 60))
+    t_new = rng.randrange(n_ops) if late else None
+    for t in range(n_ops):
+        if t == t_new:
+            # the second batch of quantities
+            if scenario == "reseed":
+                which = rng.choice(["py", "py", "both", "np"])
+                ops += [["reseed", which, seed0 if rng.random() < 0.85 else rng.choice(SEEDS)], ["snap"]]
+            for i in late:
+                ops += [["new", i], ["snap"]]
+            alive = list(range(nq))
+            meas = [i for i in alive if qs[i]["kind"] in MEASURED]
+            # reads / requests about the new quantities come first (then the ordinary stream goes on)
+            for i in late:
+                if qs[i]["kind"] in MEASURED and rng.random() < 0.5:
+                    b = rng.choice(meas)
+                    which = rng.choice(["corr", "cov"])
+                    v = 0.5 * (std[i] * std[b] if which == "cov" else 1.0)
+                    a, b = (i, b) if rng.random() < 0.5 else (b, i)
+                    ops += [["set", which, rng.choice(["fn", "meth"]), a, b, bits(v)], ["snap"]]
         r = rng.random()
         if r < 0.62:
             if rng.random() < (0.3 if malformed else 0.08):
-                a, b = rng.randrange(nq), rng.randrange(nq)
+                a, b = rng.choice(alive), rng.choice(alive)
             else:
                 a, b = rng.choice(meas), rng.choice(meas)
                 if a == b and rng.random() < 0.9:
@@ -204,7 +257,7 @@ def gen_case(rng, malformed=False, long=False):
             ops.append(["set", which, rng.choice(["fn", "meth"]), a, b, None if v is None else bits(v)]
                        + num_type(rng, v))
         elif r < 0.72:
-            a, b = rng.randrange(nq), rng.randrange(nq)
+            a, b = rng.choice(alive), rng.choice(alive)
             ops.append(["get", rng.choice(["corr", "cov"]), rng.choice(["fn", "meth"]), a, b])
             continue
         elif r < 0.88:
@@ -217,25 +270,36 @@ def gen_case(rng, malformed=False, long=False):
                 s = -abs(s) - 0.1
             # (no Fraction here: a Fraction uncertainty makes sigma_a*sigma_b exact rational
             # arithmetic, and decisions at |rho| = 1 are then not the binary64 ones of the model)
-            ops.append(["setstd", i, bits(s)] + [t for t in num_type(rng, s) if t != "Fraction"])
+            ops.append(["setstd", i, bits(s)] + [t_ for t_ in num_type(rng, s) if t_ != "Fraction"])
             if s >= 0:
                 std[i] = s
+        elif r < 0.91 and scenario == "reseed":
+            # re-seeding alone (no object made afterwards) changes nothing either
+            ops.append(["reseed", rng.choice(["py", "np", "both"]), rng.choice([seed0, seed0, 7])])
         else:
             ops.append(["reset"])
         ops.append(["snap"])
-    return {"qs": qs, "ops": ops, "malformed": malformed}
+    c = {"qs": qs, "ops": ops, "malformed": malformed}
+    if late or scenario != "plain":
+        c.update({"late": late, "seed0": seed0, "scenario": scenario})
+    return c
+
+
+def describe_qty(i, x):
+    if x["kind"] == "single":
+        return "q{}=Measurement({!r}, {!r})".format(i, unbits(x["val"]) if "val" in x else 5.0 + i,
+                                                    unbits(x["std"]))
+    if x["kind"] == "repeated":
+        return "q{}=Measurement({!r}{})".format(i, [unbits(v) for v in x["raw"]],
+                                                "" if x["plain"] else ", {!r}".format([unbits(e) for e in x["errs"]]))
+    return "q{}=<{}>".format(i, x["kind"])
 
 
 def describe(c):
-    qs = []
-    for i, x in enumerate(c["qs"]):
-        if x["kind"] == "single":
-            qs.append("q{}=Measurement({}, {!r})".format(i, 5 + i, unbits(x["std"])))
-        elif x["kind"] == "repeated":
-            qs.append("q{}=Measurement({!r}{})".format(i, [unbits(v) for v in x["raw"]],
-                      "" if x["plain"] else ", {!r}".format([unbits(e) for e in x["errs"]])))
-        else:
-            qs.append("q{}=<{}>".format(i, x["kind"]))
+    late = set(c.get("late") or [])
+    qs = [describe_qty(i, x) for i, x in enumerate(c["qs"]) if i not in late]
+    if "seed0" in c:
+        qs.insert(0, "random.seed({0}); np.random.seed({0})".format(c["seed0"]))
     ops = []
     for o in c["ops"]:
         if o[0] == "set":
@@ -249,6 +313,11 @@ def describe(c):
             ops.append("q{}.error = {}".format(o[1], fmt_num(o[2], o[3] if len(o) > 3 else None)))
         elif o[0] == "reset":
             ops.append("q.reset_correlations()")
+        elif o[0] == "reseed":
+            ops.append({"py": "random.seed({0})", "np": "np.random.seed({0})",
+                        "both": "random.seed({0}); np.random.seed({0})"}[o[1]].format(o[2]))
+        elif o[0] == "new":
+            ops.append("[new quantity] " + describe_qty(o[1], c["qs"][o[1]]))
     return "; ".join(qs) + " :: " + "; ".join(ops)
 
 
@@ -257,7 +326,7 @@ def build(q, qd, i):
     from qexpy.data.data import Constant
     k = qd["kind"]
     if k == "single":
-        return q.Measurement(5.0 + i, unbits(qd["std"]))
+        return q.Measurement(unbits(qd["val"]) if "val" in qd else 5.0 + i, unbits(qd["std"]))
     if k == "repeated":
         raw = [unbits(x) for x in qd["raw"]]
         if qd["plain"]:
@@ -277,19 +346,42 @@ def num_or_reject(f):
     return float(v)
 
 
+def reseed(which, seed):
+    """re-seed the global random generators (nothing the library reports may depend on them)"""
+    import random as _pyrandom
+    import numpy as np
+    if which in ("py", "both"):
+        _pyrandom.seed(seed)
+    if which in ("np", "both"):
+        np.random.seed(seed % 2 ** 32)
+
+
 def observe(q, c):
     import warnings
     H.reset(q)
+    # the state of the global generators when the first batch of quantities is made is part of the
+    # case (a replay re-creates it): results must not depend on it
+    reseed("both", c.get("seed0", 12345))
+    late = set(c.get("late") or [])
     with warnings.catch_warnings():
         warnings.simplefilter("ignore")
-        objs = [build(q, qd, i) for i, qd in enumerate(c["qs"])]
+        objs = [None if i in late else build(q, qd, i) for i, qd in enumerate(c["qs"])]
     n = len(objs)
     outs, excs = [], collections.Counter()
     for o in c["ops"]:
         if o[0] == "snap":
-            outs.append([[[num_or_reject(lambda: q.get_correlation(objs[i], objs[j])),
+            outs.append([[None if objs[i] is None or objs[j] is None else
+                          [num_or_reject(lambda: q.get_correlation(objs[i], objs[j])),
                            num_or_reject(lambda: q.get_covariance(objs[i], objs[j]))]
                           for j in range(n)] for i in range(n)])
+        elif o[0] == "reseed":
+            reseed(o[1], o[2])
+            outs.append("ok")
+        elif o[0] == "new":
+            def mk():
+                objs[o[1]] = build(q, c["qs"][o[1]], o[1])
+            s, v = H.call(mk)
+            outs.append(s)
         elif o[0] == "reset":
             s, v = H.call(q.reset_correlations)
             outs.append(s)
@@ -320,7 +412,7 @@ def observe(q, c):
                 outs.append(num_or_reject(lambda: getattr(objs[a], name)(objs[b])))
     stds = []
     for x, qd in zip(objs, c["qs"]):
-        stds.append(float(x.std) if qd["kind"] in MEASURED else None)
+        stds.append(float(x.std) if qd["kind"] in MEASURED and x is not None else None)
     return {"outs": outs, "stds": stds, "exceptions": dict(excs)}
 
 
@@ -333,6 +425,8 @@ def model_line(c):
             qs.append({"kind": "repeated", "raw": x["raw"], "plain": x["plain"]})
         else:
             qs.append({"kind": x["kind"]})
+    # ("reseed" / "new" are requests of the history like any other: in the model the identity of a
+    # quantity is its index, creation is not observable and no generator exists -- both answer "ok")
     return {"cmd": "c04", "qs": qs, "ops": c["ops"]}
 
 
@@ -380,6 +474,8 @@ def compare(c, o, m):
             for a in range(n):
                 for b in range(n):
                     for k, w in ((0, "correlation"), (1, "covariance")):
+                        if io[a][b] is None:
+                            continue        # one of the two quantities is made later in the history
                         if not same_out(io[a][b][k], mo[a][b][k], slack=256.0):
                             bad = (a, b, w, io[a][b][k], mo[a][b][k])
                             break
@@ -437,11 +533,25 @@ def spec_check(c, o):
     prev = None
     last = None          # the request before the snapshot
     last_out = None
+    all_meas = meas
+    alive = set(range(n)) - set(c.get("late") or [])
+    meas = [i for i in all_meas if i in alive]
+    recorded = set()     # own reference: the pairs an accepted request was about, since the last reset
     for i, (op, io) in enumerate(zip(c["ops"], o["outs"])):
         if op[0] != "snap":
             last, last_out = op, io
             if op[0] == "setstd" and io == "ok":
                 stds[op[1]] = unbits(op[2])
+            if op[0] == "new":
+                if io != "ok":
+                    fail("new-raised", "making a quantity raised", i, impl=io)
+                    return fails
+                alive.add(op[1])
+                meas = [k for k in all_meas if k in alive]
+            if op[0] == "reset" and io == "ok":
+                recorded.clear()
+            if op[0] == "set" and io == "ok":
+                recorded.add(frozenset((op[3], op[4])))
             # requests that must be rejected
             if op[0] == "set":
                 _, w, form, a, b, v = op[:6]
@@ -494,9 +604,26 @@ def spec_check(c, o):
                     fail("self", "self correlation / covariance is not 1 / variance", i,
                          impl=S[a][a], expected=[1.0, stds[a] ** 2])
                     return fails
+        # pairs never recorded (since the last reset) read 0 -- whatever their numbers are, whenever
+        # the two objects were made, whatever the random generators were seeded with
+        for a in meas:
+            for b in meas:
+                if a < b and frozenset((a, b)) not in recorded and \
+                        (S[a][b] != [0.0, 0.0] or S[b][a] != [0.0, 0.0]):
+                    how = "after-" + (last[0] if last else "start")
+                    if last and last[0] == "new":
+                        how += ":twin" if c["qs"][last[1]].get("twin_of") in (a, b) and last[1] in (a, b) \
+                            else ":other"
+                    fail("unrecorded:" + how, "the pair (q{}, q{}) was never recorded{} but reads "
+                         "non-zero".format(a, b, " since the last reset" if any(
+                             x[0] == "reset" for x in c["ops"][:i]) else ""), i,
+                         impl=[S[a][b], S[b][a]], expected=[0.0, 0.0],
+                         clause="pairs never recorded, and every pair after a reset, read as 0")
+                    return fails
         # operands that are not measurements read 0 (or raise for foreign objects)
         if prev is not None and last is not None:
-            changed = [(a, b) for a in meas for b in meas if a != b and S[a][b] != prev[a][b]]
+            changed = [(a, b) for a in meas for b in meas
+                       if a != b and prev[a][b] is not None and S[a][b] != prev[a][b]]
             if last[0] == "reset" and last_out == "ok":
                 nz = [(a, b) for a in meas for b in meas if a != b and S[a][b] != [0.0, 0.0]]
                 if nz:
@@ -528,6 +655,14 @@ def spec_check(c, o):
                                 fail("wrong-number", "the recorded {} is not the requested "
                                      "number".format(w), i, impl=got, expected=x)
                                 return fails
+            elif last[0] in ("new", "reseed"):
+                if changed:
+                    fail("changed-by-" + last[0], "{} changed the records of {}".format(
+                        "making a new quantity" if last[0] == "new" else "re-seeding a random generator",
+                        changed[:3]), i, impl=[S[x][y] for x, y in changed[:3]],
+                        expected=[prev[x][y] for x, y in changed[:3]],
+                        clause="recording one pair never alters another")
+                    return fails
             elif last[0] == "setstd":
                 k = last[1]
                 other = [p for p in changed if k not in p]
@@ -579,6 +714,14 @@ def run_cases(ctx, cases, ref=False, with_model=True):
         res["failures"] += sp
         d["stream:" + ("malformed" if c["malformed"] else "valid")] += 1
         d["quantities:%d" % len(c["qs"])] += 1
+        d["scenario:" + {"plain": "all quantities made at the start", "late": "quantities made during the history",
+                         "reseed": "random generators re-seeded, then quantities made"}[c.get("scenario", "plain")]] += 1
+        for i in c.get("late") or []:
+            d["late-quantity:" + ("twin of an earlier one (equal numbers)" if "twin_of" in c["qs"][i]
+                                  else "other")] += 1
+        vals = [x.get("val") for x in c["qs"] if x["kind"] == "single" and "val" in x]
+        if len(vals) != len(set(vals)):
+            d["single measurements with equal central values"] += 1
         nops = sum(1 for x in c["ops"] if x[0] != "snap")
         d["ops:" + ("<=8" if nops <= 8 else "9-20" if nops <= 20 else "21-60" if nops <= 60 else "61-150")] += 1
         for x in c["qs"]:
@@ -591,6 +734,8 @@ def run_cases(ctx, cases, ref=False, with_model=True):
                 tag = "set:{}:{}:{}".format(op[1], op[2], "inferred" if op[5] is None else "explicit")
             elif op[0] == "get":
                 tag = "get:{}:{}".format(op[1], op[2])
+            elif op[0] == "reseed":
+                tag = "reseed:{}:{}".format(op[1], "same seed as at the start" if op[2] == c.get("seed0") else "other seed")
             d["op:{}:{}".format(tag, io if isinstance(io, str) else "number")] += 1
             typ = op[6] if op[0] == "set" and len(op) > 6 else op[3] if op[0] == "setstd" and len(op) > 3 else None
             if typ:
